@@ -130,6 +130,7 @@ class SimKernel(object):
         self.foreign = {}              # pid -> alive? (for os.kill(pid, 0) in pidfile checks)
         self.blocking_waits = 0
         self.counters = {}
+        self.stray_real_signals = []
 
     # ------------------------------------------------------------------
     def _count(self, k):
@@ -416,6 +417,8 @@ class SimPopen(object):
     def send_signal(self, sig):
         self._k.kpoint('send_signal', self.pid)
         self._gone_check()
+        if not (0 <= int(sig) <= 64):
+            raise OSError(errno.EINVAL, 'Invalid argument')
         self._k.deliver(self.pid, sig, 'send_signal')
 
     def terminate(self):
